@@ -11,6 +11,7 @@ from vlib.logixbench import CONFIGS, LogixScenario
 LEVEL = "exploration"
 SHARDS = {"quick": 8, "thorough": 16}
 TIMEOUT = {"quick": 900, "thorough": 3000}
+MIN_EVALUATIONS = {"quick": 10000, "thorough": 10000}  # fewer oracle evaluations than this means the workload collapsed: inconclusive
 RULE = ("every frame the library writes to the (fake) socket during: lifecycle histories of CIP/Logix drivers with transport faults and "
         "re-opens; generic messages with request data of EVERY length 0..600 and random lengths to 3990 over connected / UCMM / Unconnected "
         "Send; Logix uploads, multi-service / fragmented / read-modify-write traffic on ten controller configurations - is parsed by the "
